@@ -15,6 +15,8 @@ Only property theorems live here (helper lemmas: `Lemmas/SimpleFont.lean`, `Lemm
 import PdfVerif.Lemmas.SimpleFontBuild
 import PdfVerif.Lemmas.Agl
 import PdfVerif.Lemmas.SimpleFontInst
+import PdfVerif.Lemmas.Type1Roundtrip
+import PdfVerif.Lemmas.AglExact
 
 namespace PdfVerif.Props.C06
 open PdfVerif PdfVerif.SimpleFont PdfVerif.SimpleFont.Spec PdfVerif.Gen.FontCode
@@ -186,22 +188,22 @@ theorem widths_index (T : Tables) (fd : FontDict) (code : Int) :
     · have : ¬ 0 ≤ code - fd.firstChar.getD 0 := by omega
       simp [h, this]
 
-/-- **Width precedence**: the advance is the Widths/FirstChar entry, else the standard-14 metric of the
-character, else MissingWidth; times 1/1000, or times the Type3 FontMatrix scale - for every code. -/
-theorem C06_width_precedence (T : Tables) (hT : TablesOK T) (fd : FontDict) (code : Int)
-    (hj : judgedCode T fd code = true) :
-    glyphAdv (modelFont T fd) code = specWidth T fd code := by
-  unfold glyphAdv charWidth specWidth
-  rw [widths_index, build_hscale, build_defaultWidth, C06_unicode_precedence T hT fd code hj]
+/-- The advance of EVERY code (no hypothesis) is the specified function of the code's Unicode value as the font
+reports it: Widths entry, else standard-14 metric of that character, else MissingWidth; times the scale. -/
+theorem width_of_unicode (T : Tables) (fd : FontDict) (code : Int) :
+    glyphAdv (modelFont T fd) code = specWidthOf T fd code (toUnichr (modelFont T fd) code) := by
+  unfold glyphAdv charWidth specWidthOf
+  rw [widths_index, build_hscale, build_defaultWidth]
   cases hw : widthsEntry fd code with
   | some w => rfl
   | none =>
     simp only
-    unfold strWidth std14Metric
+    unfold strWidth std14MetricOf
     rw [build_widthsStr]
+    generalize toUnichr (modelFont T fd) code = u
     cases h3 : fd.isType3
     · simp only [Bool.false_eq_true, if_false]
-      cases hu : specUnicode T fd code with
+      cases u with
       | none => cases getMetrics T.fm (fd.baseFont.getD "unknown") <;> simp
       | some t =>
         cases hm : getMetrics T.fm (fd.baseFont.getD "unknown") with
@@ -219,12 +221,20 @@ theorem C06_width_precedence (T : Tables) (hT : TablesOK T) (fd : FontDict) (cod
             | nil => cases hs : slookup m c <;> simp [hs]
             | cons _ _ => simp
     · simp only [if_true]
-      cases hu : specUnicode T fd code with
+      cases u with
       | none => simp
       | some t =>
         cases t with
         | nil => simp
         | cons c r => cases r <;> simp [slookup]
+
+/-- **Width precedence**: the advance is the Widths/FirstChar entry, else the standard-14 metric of the
+character, else MissingWidth; times 1/1000, or times the Type3 FontMatrix scale - for every code. -/
+theorem C06_width_precedence (T : Tables) (hT : TablesOK T) (fd : FontDict) (code : Int)
+    (hj : judgedCode T fd code = true) :
+    glyphAdv (modelFont T fd) code = specWidth T fd code := by
+  rw [width_of_unicode, C06_unicode_precedence T hT fd code hj]
+  rfl
 
 /-- **Type3 scale**: the advance of a Type3 glyph is its Widths entry (else MissingWidth) times
 `FontMatrix[0]` (and does not depend on the text of the code). -/
@@ -250,6 +260,180 @@ theorem type3_scale (T : Tables) (fd : FontDict) (code : Int) (h3 : fd.isType3 =
       cases t with
       | nil => rfl
       | cons c r => cases r <;> simp [slookup]
+
+/-! ## ToUnicode for every map: the space / no-break-space rule, exactly -/
+
+/-- **Exact ToUnicode rule** (every map, no exclusion): the value the constructed map holds for a code is the
+most recent definition of the code, except that a definition as U+00A0 does not replace U+0020. -/
+theorem tounicode_exact (es : List TuEntry) (code : Int) :
+    tlookup (buildUmap es) code = tuTextExact (tuDefs es) code :=
+  tlookup_buildUmap_exact es code
+
+/-- Without a space / no-break-space pair the exact rule is "the last definition wins". -/
+theorem tounicode_exact_noclash (es : List TuEntry) (code : Int) (h : nbspClash (tuDefs es) = false) :
+    tuTextExact (tuDefs es) code = tuText (tuDefs es) code := by
+  rw [← tounicode_exact, tlookup_buildUmap es code h]
+
+/-- "The last definition wins" is FALSE for pdfminer in general (documented deviation): `<41> <0020>` followed by
+`<41> <00A0>` keeps the space. -/
+theorem tounicode_last_wins_cex :
+    tlookup (buildUmap [.bfchar [0x41] [0x00, 0x20], .bfchar [0x41] [0x00, 0xA0]]) 0x41 = some [0x20] ∧
+    tuText (tuDefs [.bfchar [0x41] [0x00, 0x20], .bfchar [0x41] [0x00, 0xA0]]) 0x41 = some [0xA0] ∧
+    nbspClash (tuDefs [.bfchar [0x41] [0x00, 0x20], .bfchar [0x41] [0x00, 0xA0]]) = true := by decide +kernel
+
+/-- **Text precedence, Unicode level, for every ToUnicode map** (the exclusion of space / no-break-space maps
+of `C06_unicode_precedence` is gone; only the glyph name has to be judged). -/
+theorem C06_unicode_precedence_exact (T : Tables) (hT : TablesOK T) (fd : FontDict) (code : Int)
+    (hj : judgedCodeX T fd code = true) :
+    toUnichr (modelFont T fd) code = specUnicodeX T fd code := by
+  unfold toUnichr specUnicodeX
+  unfold judgedCodeX at hj
+  rw [build_umap]
+  cases htu : fd.toUnicode with
+  | none =>
+    simp only [htu] at hj
+    simp only [Option.map_none]
+    exact encoding_text T hT fd code hj
+  | some es =>
+    simp only [htu] at hj
+    simp only [Option.map_some]
+    rw [tounicode_exact es code]
+    cases ht : tuTextExact (tuDefs es) code with
+    | some t => rfl
+    | none =>
+      simp only [ht] at hj
+      exact encoding_text T hT fd code hj
+
+theorem C06_text_precedence_exact (T : Tables) (hT : TablesOK T) (fd : FontDict) (code : Int)
+    (hj : judgedCodeX T fd code = true) :
+    glyphText (modelFont T fd) code = specTextX T fd code := by
+  unfold glyphText specTextX
+  simp only [C06_unicode_precedence_exact T hT fd code hj]
+  cases specUnicodeX T fd code <;> rfl
+
+theorem C06_width_precedence_exact (T : Tables) (hT : TablesOK T) (fd : FontDict) (code : Int)
+    (hj : judgedCodeX T fd code = true) :
+    glyphAdv (modelFont T fd) code = specWidthX T fd code := by
+  rw [width_of_unicode, C06_unicode_precedence_exact T hT fd code hj]
+  rfl
+
+/-- The old judged domain lies inside the new one, and there the two specifications agree. -/
+theorem judgedCode_exact (T : Tables) (fd : FontDict) (code : Int) (hj : judgedCode T fd code = true) :
+    judgedCodeX T fd code = true ∧ specUnicodeX T fd code = specUnicode T fd code := by
+  unfold judgedCode at hj
+  unfold judgedCodeX specUnicodeX specUnicode
+  cases htu : fd.toUnicode with
+  | none => simp only [htu] at hj; exact ⟨hj, rfl⟩
+  | some es =>
+    simp only [htu] at hj
+    cases hc : nbspClash (tuDefs es) with
+    | true => simp [hc] at hj
+    | false =>
+      simp only [hc, Bool.false_eq_true, if_false] at hj
+      simp only [tounicode_exact_noclash es code hc]
+      exact ⟨hj, trivial⟩
+
+/-! ## Differences arrays written as runs -/
+
+/-- **Differences numbering**: for a Differences array made of any number of runs `code name name …` the i-th name
+of a run starting at `first` is assigned to code `first + i` (every i: the numbering neither stops nor wraps at 255,
+negative first codes included), runs are processed in order and the LAST assignment to a code - in whichever run - wins;
+codes no run reaches keep the base encoding. -/
+theorem differences_runs (gl : GlyphList) (db : EncDB) (name : String) (runs : List (Int × List (Option Name)))
+    (code : Int) :
+    tlookup (getEncoding gl db name (diffOfRuns runs)) code =
+      match lastAssigned (runs.flatMap (fun r => numberFrom r.1 r.2)) code with
+      | some nm => name2unicode gl nm
+      | none => tlookup (db.get name) code := by
+  rw [enc_overlay, assignments_runs]
+
+/-- the numbering inside one run -/
+theorem run_numbering (first : Int) (names : List (Option Name)) (i : Nat) :
+    (numberFrom first names)[i]? = (names[i]?).map (fun nm => (first + i, nm)) :=
+  numberFrom_getElem names first i
+
+-- non-vacuity: three runs, one past 255, one negative, one re-assigning a code of the first
+example :
+    let runs : List (Int × List (Option Name)) :=
+      [(254, [some ['A'], some ['B'], some ['A'], some ['B']]), (-1, [some ['B']]), (255, [some ['A']])]
+    let t := getEncoding [(['A'], [65]), (['B'], [66])] { tables := [], default := [(70, [70])] } "x" (diffOfRuns runs)
+    tlookup t 254 = some [65] ∧ tlookup t 255 = some [65] ∧ tlookup t 257 = some [66] ∧ tlookup t (-1) = some [66] ∧
+      tlookup t 0 = none ∧ tlookup t 70 = some [70] := by decide
+
+/-! ## Widths bounds: inside / outside `FirstChar … FirstChar + len(Widths) - 1` -/
+
+/-- Inside the range of the Widths array the advance is `Widths[code - FirstChar]` times the scale - whatever the
+font's encoding, ToUnicode map, metrics or MissingWidth say (LastChar is not consulted). -/
+theorem width_in_range (T : Tables) (fd : FontDict) (code : Int) (ws : List Rat) (hw : fd.widths = some ws)
+    (h1 : fd.firstChar.getD 0 ≤ code) (h2 : code < fd.firstChar.getD 0 + ws.length) :
+    ∃ w, ws[(code - fd.firstChar.getD 0).toNat]? = some w ∧
+      glyphAdv (modelFont T fd) code = w * widthScale fd := by
+  have hlt : (code - fd.firstChar.getD 0).toNat < ws.length := by omega
+  refine ⟨ws[(code - fd.firstChar.getD 0).toNat], List.getElem?_eq_getElem hlt, ?_⟩
+  rw [width_of_unicode]
+  unfold specWidthOf widthsEntry
+  simp [hw, h1, List.getElem?_eq_getElem hlt]
+
+/-- Outside that range (or without Widths) the advance is the standard-14 metric of the code's character, else
+MissingWidth (0 without a descriptor entry), times the scale. -/
+theorem width_out_of_range (T : Tables) (fd : FontDict) (code : Int)
+    (h : fd.widths = none ∨ ∃ ws, fd.widths = some ws ∧
+      (code < fd.firstChar.getD 0 ∨ fd.firstChar.getD 0 + ws.length ≤ code)) :
+    glyphAdv (modelFont T fd) code =
+      (match std14MetricOf T fd (toUnichr (modelFont T fd) code) with
+       | some w => w
+       | none => missingWidth fd) * widthScale fd := by
+  rw [width_of_unicode]
+  unfold specWidthOf
+  have he : widthsEntry fd code = none := by
+    unfold widthsEntry
+    rcases h with h | ⟨ws, hw, h⟩
+    · simp [h]
+    · simp only [hw]
+      rcases h with h | h
+      · have : ¬ fd.firstChar.getD 0 ≤ code := by omega
+        simp [this]
+      · by_cases h0 : fd.firstChar.getD 0 ≤ code
+        · have : ws.length ≤ (code - fd.firstChar.getD 0).toNat := by omega
+          simp [h0, List.getElem?_eq_none this]
+        · simp [h0]
+  rw [he]
+  rfl
+
+/-! ## Type3 FontMatrix: which matrix the font gets -/
+
+/-- An array of six numbers is taken as it is. -/
+theorem type3_matrix_usable (a b c d e f : Rat) :
+    type3Matrix (.list [some a, some b, some c, some d, some e, some f]) = (a, b, c, d, e, f) := by
+  simp [type3Matrix, T3_MATRIX_LEN]
+
+/-- Every other FontMatrix entry - absent, not an array, an array of another length, an array with an element that
+is not a number - gives the usual glyph space of 1/1000 (constants regenerated from `PDFType3Font.__init__`). -/
+theorem type3_matrix_default (ms : MatSpec) (h : matUsable ms = false) :
+    type3Matrix ms = ((1 : Rat) / 1000, 0, 0, (1 : Rat) / 1000, 0, 0) := by
+  cases ms with
+  | absent => simp [type3Matrix, T3_MATRIX_LEN, T3_DEFAULT_MATRIX]
+  | notList => simp [type3Matrix, T3_MATRIX_LEN, T3_DEFAULT_MATRIX]
+  | list xs =>
+    simp only [matUsable] at h
+    have hc : (xs.length != T3_MATRIX_LEN || !(xs.all Option.isSome)) = true := by
+      simp only [T3_MATRIX_LEN]
+      cases h1 : (xs.length == 6) <;> cases h2 : xs.all Option.isSome <;> simp_all
+    simp only [type3Matrix, hc, if_true, T3_DEFAULT_MATRIX]
+
+/-- The advance of a Type3 glyph under an unusable FontMatrix: Widths entry (else MissingWidth) / 1000. -/
+theorem type3_scale_default (T : Tables) (fd : FontDict) (code : Int) (ms : MatSpec) (h3 : fd.isType3 = true)
+    (hm : fd.fontMatrix = type3Matrix ms) (hbad : matUsable ms = false) :
+    glyphAdv (modelFont T fd) code =
+      (match widthsEntry fd code with
+       | some w => w
+       | none => missingWidth fd) * ((1 : Rat) / 1000) := by
+  rw [type3_scale T fd code h3, hm, type3_matrix_default ms hbad]
+
+example : matUsable (.list [some 1, some 0, some 0]) = false ∧ matUsable .absent = false ∧ matUsable .notList = false ∧
+    matUsable (.list [some 1, some 0, some 0, none, some 0, some 0]) = false ∧
+    matUsable (.list [some 2, some 0, some 0, some 2, some 0, some 0, some 0]) = false ∧
+    matUsable (.list [some 2, some 0, some 0, some 2, some 0, some 0]) = true := by decide
 
 /-! ## The regenerated tables of pdfminer -/
 
@@ -278,6 +462,110 @@ theorem C06_width_precedence_pdfminer (fd : FontDict) (code : Int)
     (hj : judgedCode Inst.tables fd code = true) :
     glyphAdv (build Inst.glyphs Inst.encDB Inst.metrics fd) code = specWidth Inst.tables fd code :=
   C06_width_precedence Inst.tables tables_ok fd code hj
+
+/-! ## Every name, every font dictionary, every code: no judged domain -/
+
+/-- **`name2unicode` on EVERY glyph name** is the Adobe Glyph List algorithm with exactly two deviations:
+(D1) hexadecimal digits after `uni` / `u` may be lower case, (D2) a component without a value makes the whole
+name undefined.  (`agl_grammar` is the restriction to names where neither deviation shows.) -/
+theorem name2unicode_exact (gl : GlyphList) (hgl : GlyphListOK gl) (nm : Option Name) :
+    name2unicode gl nm = pdfminerAgl gl nm :=
+  name2unicode_eq_pdfminerAgl hgl nm
+
+/-- On the judged names the exact algorithm IS the AGL algorithm. -/
+theorem pdfminerAgl_judged (gl : GlyphList) (hgl : GlyphListOK gl) (nm : Option Name)
+    (hj : judgedName gl nm = true) : pdfminerAgl gl nm = aglText gl nm := by
+  rw [← name2unicode_exact gl hgl nm, agl_grammar gl hgl nm hj]
+
+/-- The two deviations, on the exact algorithm (the lower-case rule and the unknown-component rule, stated). -/
+theorem pdfminerAgl_deviations :
+    pdfminerAgl [] (some ['u', 'n', 'i', '0', '0', 'e', '9']) = some [0xE9] ∧
+    pdfminerAgl [] (some ['u', '1', 'f', '6', '0', '0']) = some [0x1F600] ∧
+    pdfminerAgl [(['A'], [65])] (some ['A', '_', 'f', 'o', 'o']) = none ∧
+    pdfminerAgl [(['A'], [65])] (some ['A', '_', '_', 'A']) = none ∧
+    pdfminerAgl [(['A'], [65])] (some ['A', '_', 'u', 'n', 'i', '0', '0', '4', 'a', '.', 'x', '_', 'y']) = some [65, 0x4A] := by
+  decide
+
+theorem name2unicode_exact_pdfminer (nm : Option Name) :
+    name2unicode Inst.glyphs nm = pdfminerAgl Inst.glyphs nm :=
+  name2unicode_exact Inst.glyphs Inst.glyphs_ok nm
+
+/-- The encoding of a font as Unicode values, for EVERY Differences array (no hypothesis on the names). -/
+theorem enc_text_all (T : Tables) (hT : TablesOK T) (name : String) (diff : List DiffTok) (code : Int) :
+    tlookup (getEncoding T.gl (dbOf T) name diff) code = encTextP T name diff code := by
+  rw [enc_overlay]
+  unfold encTextP
+  cases hl : lastAssigned (assignments 0 diff) code with
+  | some nm => exact name2unicode_exact T.gl hT.glyphs nm
+  | none =>
+    simp only [dbOf, get_ofRows, tlookup_buildTable T.gl _ T.rows hT.rowsResolve [] code]
+    cases hb : baseName T.rows (encColumn T.cols T.dflt name) code with
+    | none => simp [tlookup_nil, pdfminerAgl]
+    | some n => exact name2unicode_exact T.gl hT.glyphs (some n)
+
+theorem encoding_text_all (T : Tables) (hT : TablesOK T) (fd : FontDict) (code : Int) :
+    tlookup (modelFont T fd).cid2unicode code = encodingTextP T fd code := by
+  rw [build_cid2unicode]
+  unfold encodingTextP
+  cases hb : usesBuiltin T fd with
+  | some ff =>
+    simp only
+    unfold builtinEncoding builtinName
+    rw [tlookup_putsEncoding]
+    cases hl : lastAssigned ff.puts code with
+    | some nm => exact name2unicode_exact T.gl hT.glyphs nm
+    | none => simp [tlookup_nil]
+  | none =>
+    simp only
+    cases he : fd.enc with
+    | absent => simp only [specEncoding]; exact enc_text_all T hT _ [] code
+    | named n => simp only [specEncoding]; exact enc_text_all T hT _ [] code
+    | dict base diff => simp only [specEncoding]; exact enc_text_all T hT _ diff code
+
+/-- **Text precedence, Unicode level - FULL statement**: for every font dictionary of the modelled shape and every
+code, with no judged-domain hypothesis: ToUnicode value (exact rule) > value of the glyph name the encoding (base
++ Differences, or built-in) assigns (exact algorithm) > undefined. -/
+theorem C06_unicode_precedence_all (T : Tables) (hT : TablesOK T) (fd : FontDict) (code : Int) :
+    toUnichr (modelFont T fd) code = specUnicodeP T fd code := by
+  unfold toUnichr specUnicodeP
+  rw [build_umap]
+  cases htu : fd.toUnicode with
+  | none =>
+    simp only [Option.map_none]
+    exact encoding_text_all T hT fd code
+  | some es =>
+    simp only [Option.map_some]
+    rw [tounicode_exact es code]
+    cases ht : tuTextExact (tuDefs es) code with
+    | some t => rfl
+    | none => exact encoding_text_all T hT fd code
+
+/-- **Text precedence - FULL statement** (every font dictionary, every code). -/
+theorem C06_text_precedence_all (T : Tables) (hT : TablesOK T) (fd : FontDict) (code : Int) :
+    glyphText (modelFont T fd) code = specTextP T fd code := by
+  unfold glyphText specTextP
+  simp only [C06_unicode_precedence_all T hT fd code]
+  cases specUnicodeP T fd code <;> rfl
+
+/-- **Width precedence - FULL statement** (every font dictionary, every code). -/
+theorem C06_width_precedence_all (T : Tables) (hT : TablesOK T) (fd : FontDict) (code : Int) :
+    glyphAdv (modelFont T fd) code = specWidthP T fd code := by
+  rw [width_of_unicode, C06_unicode_precedence_all T hT fd code]
+  rfl
+
+/-- On the judged cells the full specification is the property's specification (AGL, ToUnicode exact rule). -/
+theorem specP_judged (T : Tables) (hT : TablesOK T) (fd : FontDict) (code : Int)
+    (hj : judgedCodeX T fd code = true) :
+    specTextP T fd code = specTextX T fd code ∧ specWidthP T fd code = specWidthX T fd code := by
+  rw [← C06_text_precedence_all T hT, ← C06_width_precedence_all T hT,
+    C06_text_precedence_exact T hT fd code hj, C06_width_precedence_exact T hT fd code hj]
+  exact ⟨rfl, rfl⟩
+
+/-- The full statements for pdfminer's own tables: no hypothesis at all. -/
+theorem C06_precedence_all_pdfminer (fd : FontDict) (code : Int) :
+    glyphText (build Inst.glyphs Inst.encDB Inst.metrics fd) code = specTextP Inst.tables fd code ∧
+    glyphAdv (build Inst.glyphs Inst.encDB Inst.metrics fd) code = specWidthP Inst.tables fd code :=
+  ⟨C06_text_precedence_all Inst.tables tables_ok fd code, C06_width_precedence_all Inst.tables tables_ok fd code⟩
 
 /-! ## Glue regenerated from the source: font class dispatch, constants -/
 
@@ -322,6 +610,24 @@ theorem C06_raw_precedence (T : Tables) (hT : TablesOK T) (raw : RawFontDict) (c
     simp only [modelFont] at h1 h2
     rw [h1, h2]
 
+/-- **Full statement for font dictionaries given with the BYTES of the FontFile**: construction fails exactly when
+reading the header raises (same exception); otherwise the font is built and text and advance of EVERY code are the
+specified ones (exact glyph-name algorithm, exact ToUnicode rule) - no judged-domain hypothesis. -/
+theorem C06_raw_precedence_all (T : Tables) (hT : TablesOK T) (raw : RawFontDict) :
+    match resolveFontFile T.fm raw with
+    | .ok fd => ∃ f, buildRaw T.gl (dbOf T) T.fm raw = .ok f ∧
+        ∀ code, glyphText f code = specTextP T fd code ∧ glyphAdv f code = specWidthP T fd code
+    | .error e => buildRaw T.gl (dbOf T) T.fm raw = .error e := by
+  unfold buildRaw
+  cases hr : resolveFontFile T.fm raw with
+  | error e => rfl
+  | ok fd =>
+    refine ⟨build T.gl (dbOf T) T.fm fd, rfl, fun code => ?_⟩
+    have h1 := C06_text_precedence_all T hT fd code
+    have h2 := C06_width_precedence_all T hT fd code
+    simp only [modelFont] at h1 h2
+    exact ⟨h1, h2⟩
+
 /-- The header is read only for a non-Type3, non-standard-14 font without Encoding entry: otherwise the
 FontFile bytes - however malformed - have no influence (and cannot make construction fail). -/
 theorem header_ignored (T : Tables) (raw : RawFontDict) (h : headerToRead T.fm raw = none) :
@@ -347,6 +653,109 @@ theorem put_underflow_ignored :
 /-- An odd number of objects between `<<` and `>>` makes `get_encoding` (and font construction) raise. -/
 theorem odd_dict_raises : t1Puts [60, 60, 32, 47, 65, 32, 62, 62, 32] = .error "PSSyntaxError" := by
   decide +kernel
+
+/-! ## Round trip: every written header is read back exactly -/
+
+open PdfVerif.Lexer PdfVerif.Roundtrip in
+/-- **General round trip** (was: kernel-evaluated instances only).  For EVERY header written by `writeHeader` -
+any leading white space / comments, then any sequence of `dup <key> /<name> put` lines (key with sign and
+leading zeros, name bytes raw or `#xx`-escaped, any white space / comments between the tokens, nothing needed
+between key and `/name`), inert keywords and stray integers - the tokeniser and `Type1FontHeaderParser`'s
+stack machine return exactly the written pairs, in order, with the name bytes decoded as UTF-8, and no exception.
+(`HeaderItem.ok`: the spelling is a spelling - digits are digits, at most 4300 of them (Python's
+`int` limit), separators are white space / comments and are not empty after a keyword or name.) -/
+theorem t1_roundtrip (pad : List SepItem) (hpad : sepOK pad) (items : List HeaderItem)
+    (h : ∀ i ∈ items, i.ok) :
+    t1Puts (writeHeader pad items) = .ok ((itemResults items).map (fun r => (r.1, utf8Chars r.2))) := by
+  unfold t1Puts
+  simp only [header_tokens pad hpad items h]
+  obtain ⟨he, hr⟩ := feed_items items {} rfl h
+  simp only [he, hr]
+  rfl
+
+open PdfVerif.Lexer PdfVerif.Roundtrip in
+/-- The same for a header made of `put` lines only: `t1Puts (write puts) = puts`. -/
+theorem t1_roundtrip_puts (pad : List SepItem) (hpad : sepOK pad) (puts : List PutSpelling)
+    (h : ∀ p ∈ puts, p.ok) :
+    t1Puts (writeHeader pad (puts.map HeaderItem.put)) =
+      .ok (puts.map (fun p => (p.key, utf8Chars (nameValue p.name)))) := by
+  rw [t1_roundtrip pad hpad _ (by
+    intro i hi
+    obtain ⟨p, hp, rfl⟩ := List.mem_map.mp hi
+    exact h p hp)]
+  congr 1
+  induction puts with
+  | nil => rfl
+  | cons p r ih =>
+    simp only [List.map_cons, itemResults, HeaderItem.results, List.cons_append, List.nil_append, List.cons.injEq,
+      true_and]
+    exact ih (fun q hq => h q (by simp [hq]))
+
+section RoundtripExample
+open PdfVerif.Lexer PdfVerif.Roundtrip
+
+/-- `%!PS⏎11 dict 	dup 65/A put⏎dup	-07 %x⍽⏎/f#5Fi put ` -/
+def rtPad : List SepItem := [.comment [33, 80, 83] 10]
+def rtItems : List HeaderItem :=
+  [.num [] [49, 49] [.ws 32], .word 100 [105, 99, 116] [.ws 32, .ws 9],
+   .put { sign := [], digits := [54, 53], name := [.raw 65], g1 := [.ws 32], g2 := [], g3 := [.ws 32], g4 := [.ws 10] },
+   .put { sign := [45], digits := [48, 55], name := [.raw 102, .esc 53 70, .raw 105], g1 := [.ws 9],
+          g2 := [.ws 32, .comment [120] 13, .ws 10], g3 := [.ws 32], g4 := [.ws 32] }]
+
+/-- Non-vacuity of `t1_roundtrip`: the hypotheses hold for a header that uses every freedom. -/
+theorem rtItems_ok : sepOK rtPad ∧ ∀ i ∈ rtItems, i.ok := by
+  have g32 : SepItem.ok (.ws 32) := (by decide : isGapByte 32 = true)
+  have g9 : SepItem.ok (.ws 9) := (by decide : isGapByte 9 = true)
+  have g10 : SepItem.ok (.ws 10) := (by decide : isGapByte 10 = true)
+  have gc : SepItem.ok (.comment [120] 13) :=
+    ⟨by intro x hx; simp at hx; subst hx; decide +kernel, Or.inr rfl⟩
+  have dig : ∀ (a b : UInt8), isDigit a = true → isDigit b = true → digitsOK [a, b] := by
+    intro a b ha hb
+    refine ⟨by simp, ?_, by simp⟩
+    intro c hc; simp at hc; rcases hc with rfl | rfl <;> assumption
+  refine ⟨?_, ?_⟩
+  · intro i hi
+    simp only [rtPad, List.mem_singleton] at hi
+    subst hi
+    exact ⟨by intro x hx; simp at hx; rcases hx with rfl | rfl | rfl <;> decide +kernel, Or.inl rfl⟩
+  · intro i hi
+    simp only [rtItems, List.mem_cons, List.not_mem_nil, or_false] at hi
+    rcases hi with rfl | rfl | rfl | rfl
+    · exact ⟨Or.inl rfl, dig 49 49 (by decide) (by decide),
+        by intro i hi; simp at hi; subst hi; exact g32, by simp⟩
+    · refine ⟨by decide, ?_, by decide, by decide, by decide, ?_, by simp⟩
+      · intro x hx; simp at hx; rcases hx with rfl | rfl | rfl <;> decide
+      · intro i hi; simp at hi; rcases hi with rfl | rfl
+        · exact g32
+        · exact g9
+    · refine ⟨Or.inl rfl, dig 54 53 (by decide) (by decide), ?_, ?_, by simp, ?_, ?_, by simp, ?_, by simp⟩
+      · intro i hi; simp at hi; subst hi; exact (by decide : nameRaw 65 = true)
+      · intro i hi; simp at hi; subst hi; exact g32
+      · intro i hi; cases hi
+      · intro i hi; simp at hi; subst hi; exact g32
+      · intro i hi; simp at hi; subst hi; exact g10
+    · refine ⟨Or.inr (Or.inr rfl), dig 48 55 (by decide) (by decide), ?_, ?_, by simp, ?_, ?_, by simp, ?_, by simp⟩
+      · intro i hi; simp at hi
+        rcases hi with rfl | rfl | rfl
+        · exact (by decide : nameRaw 102 = true)
+        · exact ⟨by decide +kernel, by decide +kernel⟩
+        · exact (by decide : nameRaw 105 = true)
+      · intro i hi; simp at hi; subst hi; exact g9
+      · intro i hi; simp at hi
+        rcases hi with rfl | rfl | rfl
+        · exact g32
+        · exact gc
+        · exact g10
+      · intro i hi; simp at hi; subst hi; exact g32
+      · intro i hi; simp at hi; subst hi; exact g32
+
+example : writeHeader rtPad rtItems =
+    [37, 33, 80, 83, 10, 49, 49, 32, 100, 105, 99, 116, 32, 9, 100, 117, 112, 32, 54, 53, 47, 65, 32, 112, 117, 116, 10,
+     100, 117, 112, 9, 45, 48, 55, 32, 37, 120, 13, 10, 47, 102, 35, 53, 70, 105, 32, 112, 117, 116, 32] := by decide
+example : t1Puts (writeHeader rtPad rtItems) = .ok [(65, some ['A']), (-7, some ['f', '_', 'i'])] := by
+  rw [t1_roundtrip rtPad rtItems_ok.1 rtItems rtItems_ok.2]; decide
+
+end RoundtripExample
 
 /-! ## Font cache -/
 
@@ -483,6 +892,49 @@ example : specWidth T0 fd0 66 = 500 / 1000 := by decide +kernel         -- Width
 example : specWidth T0 fd0 32 = 250 / 1000 := by decide +kernel         -- text is "X": no metric -> MissingWidth
 example : glyphText (modelFont T0 fd0) 66 = [65, 66] := by
   rw [C06_text_precedence T0 example_tables_ok fd0 66 (by decide +kernel)]; decide +kernel
+
+-- the exact ToUnicode rule on a font whose map has the space / no-break-space pair (outside the old judged domain)
+def fdNb : FontDict :=
+  { fd0 with toUnicode := some [.bfchar [0x41] [0x00, 0x20], .bfchar [0x41] [0x00, 0xA0],
+                                 .bfchar [0x42] [0x00, 0xA0], .bfchar [0x42] [0x00, 0x20], .bfchar [0x42] [0x00, 0xA0],
+                                 .bfchar [0x43] [0x00, 0x20], .bfchar [0x43] [0x00, 0x58], .bfchar [0x43] [0x00, 0xA0]] }
+example : judgedCode T0 fdNb 0x41 = false := by decide +kernel
+example : ∀ c ∈ [(0x41 : Int), 0x42, 0x43, 0x20], judgedCodeX T0 fdNb c = true := by decide +kernel
+example : specTextX T0 fdNb 0x41 = [0x20] := by decide +kernel      -- space, then no-break space: the space stays
+example : specTextX T0 fdNb 0x42 = [0x20] := by decide +kernel      -- nbsp, space, nbsp: space
+example : specTextX T0 fdNb 0x43 = [0xA0] := by decide +kernel      -- space, X, nbsp: nbsp (X was in effect)
+example : specWidthX T0 fdNb 0x41 = 278 / 1000 := by decide +kernel -- Helvetica's metric of the space
+example : glyphText (modelFont T0 fdNb) 0x41 = [0x20] := by
+  rw [C06_text_precedence_exact T0 example_tables_ok fdNb 0x41 (by decide +kernel)]; decide +kernel
+
+-- the full statements on a font whose Differences use a lower-case uni name and a partially unknown name
+def fdLo : FontDict :=
+  { fd0 with toUnicode := none,
+             enc := .dict (some "WinAnsiEncoding")
+               [.num 65, .name (some ['u', 'n', 'i', '0', '0', 'e', '9']), .name (some ['A', '_', 'f', 'o', 'o'])] }
+example : judgedCodeX T0 fdLo 65 = false ∧ judgedCodeX T0 fdLo 66 = false := by decide +kernel
+example : specTextP T0 fdLo 65 = [0xE9] := by decide +kernel                 -- (D1) lower-case digits accepted
+example : specTextP T0 fdLo 66 = specPlaceholder 66 := by decide +kernel     -- (D2) unknown component: undefined
+example : glyphText (modelFont T0 fdLo) 65 = [0xE9] := by
+  rw [C06_text_precedence_all T0 example_tables_ok fdLo 65]; decide +kernel
+
+-- non-vacuity on `fd0` (FirstChar 66, two widths): 66 and 67 inside, 65 and 68 outside
+example : ∃ w, ([500, 600] : List Rat)[((67 : Int) - fd0.firstChar.getD 0).toNat]? = some w ∧
+    glyphAdv (modelFont T0 fd0) 67 = w * widthScale fd0 :=
+  width_in_range T0 fd0 67 [500, 600] rfl (by decide) (by decide)
+example : glyphAdv (modelFont T0 fd0) 67 = 600 / 1000 := by decide +kernel
+example : glyphAdv (modelFont T0 fd0) 68 = 250 / 1000 := by decide +kernel     -- MissingWidth
+example : glyphAdv (modelFont T0 fd0) 65 = 250 / 1000 := by decide +kernel     -- below FirstChar
+
+-- `C06_raw_precedence_all`: both branches occur (a readable header; an odd `<< >>` that makes construction raise)
+def raw0 (bytes : Bytes) : RawFontDict :=
+  { isType3 := false, baseFont := some "Foo", enc := .absent, toUnicode := none, firstChar := none, widths := none,
+    desc := some { missingWidth := some 250, fontFile := some { data := bytes, length1 := none } },
+    fontMatrix := (1, 0, 0, 1, 0, 0) }
+example : (match resolveFontFile T0.fm (raw0 exampleHeader) with | .ok _ => true | .error _ => false) = true := by
+  decide +kernel
+example : (match buildRaw T0.gl (dbOf T0) T0.fm (raw0 [60, 60, 32, 47, 65, 32, 62, 62, 32]) with
+    | .ok _ => false | .error e => e == "PSSyntaxError") = true := by decide +kernel
 
 -- the instances for pdfminer's own tables are not vacuous either (the first glyph-list entry keeps the kernel
 -- lookup short; names deeper in the 4 281-entry list cost minutes of String -> List Char conversion)
